@@ -10,7 +10,10 @@ use crate::utils::kalman::KalmanState;
 use anyhow::Result;
 
 use std::collections::{HashMap, VecDeque};
+#[cfg(not(similari_verif))]
 use std::sync::{Arc, RwLock};
+#[cfg(similari_verif)]
+use crate::verif::sync::{Arc, RwLock};
 
 use self::metric::SortMetric;
 
